@@ -322,6 +322,9 @@ func govcTWCCSymbols(r *rand.Rand) govcTWCCCase {
 	long := r.Intn(40) == 0 // now and then a feedback packet about thousands of packets (long runs, 13-bit run lengths)
 	if long {
 		n = 1000 + r.Intn(9000)
+		if r.Intn(3) == 0 {
+			n = 65535 - r.Intn(9000) // status counts next to the 16-bit limit: the last runs end within a run length of 2^16
+		}
 	}
 	style := r.Intn(4)
 	for i := 0; i < n; {
@@ -438,10 +441,10 @@ func govcTWCCBytes(r *rand.Rand, c govcTWCCCase, chunks []uint16, extraPad bool)
 		b = append(b, 0)
 	}
 	b[0], b[1] = 0x80|15, 205
-	if pad > 0 {
+	if pad > 0 && (extraPad || r.Intn(4) != 0) {
 		b[0] |= 0x20
 		b[len(b)-1] = byte(pad)
-	}
+	} // else: zero fill to the word boundary without the P bit (a header C09 still calls consistent)
 	b[2], b[3] = byte((len(b)/4-1)>>8), byte(len(b)/4-1)
 	return b
 }
